@@ -612,6 +612,10 @@ func gnNotifStream(rng *rand.Rand, n int, tier string, out string) (*Summary, er
 						// that contains the list; UnmarshalNotifications deletes that whole node first
 						sig = "gnmi/atomic-prefix-wipes-siblings"
 					}
+					if unionIntKindOnly(leafMapDiff(lm, lm2, 1000), lm, lm2) {
+						// a union with two integer members: uint_val / int_val do not say which
+						sig = "gnmi/union-integer-member-not-conveyed"
+					}
 					sum.finding(Finding{Signature: sig, What: "leaves differ after TogNMINotifications + UnmarshalNotifications: " + strings.Join(d, " ; "), Input: in})
 				}
 			}
